@@ -20,7 +20,7 @@ PROP = {'drive': ['Subset'], 'modules': ['SfntV.Props.C10'],
                        'C10_writable_encoding_witness',
                        'C10_nonvacuous'],
  'areas': [('subset', 400, 6000)],
- 'rule': 'distinct case lines (abstract font: kind ttf/cff/cid, composite graph, widths, names, cmap subtables, '
+ 'rule': 'distinct case lines (abstract font; CFF built-in encodings may give several codes to one glyph;  kind ttf/cff/cid, composite graph, widths, names, cmap subtables, '
          'private dicts/FDSelect/encoding/CIDs, GSUB 1.1/4.1, GPOS 2.1, features; requested glyph list; for '
          'subset.run the glyph order Go produced as oracle); non-trivial = at least 2 requested glyphs',
  'partial': ['C10_writable is proved only as writer PRECONDITIONS on the model (C10_writable_glyphs, '
